@@ -56,13 +56,155 @@ prop("C19", [
       bounds="1 element, clone, one add on either copy, arbitrary u16 values",
       funcs=["UnknownAttributes::add/clone/attributes"]),
 ] + [
-    H("stunrs", NONCE + "c19_nonce_cookie_k%d_w%d" % (k, w), timeout=600, mem_gb=8, covers=None, stubs=[NOFMT, QS_STRUCT], playback=False,
-      tier="quick" if (k, w) in ((2, 2), (3, 2), (4, 2), (3, 3)) else "thorough",
-      bounds="nonce = 'obMatJos2' + %d printable ASCII chars + one %d-byte UTF-8 char (all code points of that width) + 'xyz'" % (k, w),
-      funcs=["Nonce::new", "Nonce::is_nonce_cookie", "Nonce::security_features", "strings::formatted_quoted_string_from"])
-    for (k, w) in ((0, 2), (1, 2), (2, 2), (3, 2), (4, 2), (1, 3), (2, 3), (3, 3))
-], outside="strings longer than 17 bytes; PRECIS on non-ASCII input; public functions not listed in functions_encoded")
+    H("stunrs", NONCE + "c19_nonce_cookie_k%d_c%d" % (k, c), timeout=900, mem_gb=8, covers=None, stubs=[NOFMT, QS_STRUCT],
+      tier="quick" if (k, c) in ((1, 1), (2, 1), (3, 1)) else "thorough",
+      bounds="nonce = 'obMatJos2' + %d printable ASCII chars + U+00%s lead char + %d continuation char(s) U+0080..BF (each 2 UTF-8 bytes, the sequences the real quoted-string grammar admits) + 'xyz'" % (k, "C0..DF" if c == 1 else "E0..EF", c),
+      funcs=["Nonce::is_nonce_cookie", "Nonce::security_features"],
+      sample="'obMatJos2' 'aaa' U+00C3 U+00A9 'xyz'")
+    for (k, c) in ((0, 1), (1, 1), (2, 1), (3, 1), (4, 1), (0, 2), (1, 2))
+] + [
+    H("stunrs", NONCE + "c19_nonce_cookie_ascii_k%d" % k, timeout=900, mem_gb=8, covers=None, stubs=[NOFMT, QS_STRUCT],
+      tier="quick" if k == 4 else "thorough",
+      bounds="nonce = 'obMatJos2' + %d arbitrary printable ASCII chars (base64 and non-base64 flag characters)" % k,
+      funcs=["Nonce::is_nonce_cookie", "Nonce::security_features"]) for k in (3, 4, 6)
+], outside="strings longer than 18 bytes; PRECIS on non-ASCII input; public functions not listed in functions_encoded")
 DESCR["C19"] = {
     "level": "Bounded model checking of the value types' public constructors/accessors/conversions over their whole integer domains, of clone-then-mutate sequences on the Arc-backed types, and of the nonce-cookie accessors on structurally assembled multi-byte strings; absence of any reachable panic/overflow/slice failure is what CBMC checks.",
     "note": "Trusted: Kani/CBMC; qs_any over-approximates the quoted-string grammar (counterexamples through it are model-level and are confirmed by a native replay before a fix is made); error texts stubbed (nofmt).",
+}
+
+TMO = "timeout::verif_timeout::"
+CDS = "std::time::Instant::checked_duration_since -> non-recursive stub computing the same function"
+_c06 = [H("agent", TMO + "c06_default_chain", timeout=300, mem_gb=4, covers=0, stubs=[CDS],
+          bounds="defaults (500 ms, Rm 16, Rc 7), on-time calls", funcs=["RtoManager::next_rto", "RtoCalculator::next_rto"])]
+for (rto, rc) in ((500, 7), (500, 1), (3000, 3)):
+    _c06.append(H("agent", TMO + "c06_first_rto%d_rc%d" % (rto, rc), timeout=300, mem_gb=4, covers=0, stubs=[CDS],
+                  bounds="RTO=%d ms, Rc=%d, Rm symbolic 1..32, first call at an arbitrary instant" % (rto, rc),
+                  funcs=["RtoManager::new", "RtoManager::next_rto"]))
+for (rto, rc, i, tier) in ([(500, 7, i, "quick") for i in range(1, 8)] + [(500, 1, 1, "quick"), (500, 2, 1, "quick"), (500, 2, 2, "quick"),
+                           (1, 4, 1, "thorough"), (1, 4, 3, "thorough"), (3000, 3, 1, "thorough"), (3000, 3, 2, "thorough"), (3000, 3, 3, "thorough"),
+                           (500, 10, 1, "thorough"), (500, 10, 5, "thorough"), (500, 10, 9, "thorough"), (500, 10, 10, "thorough")]):
+    _c06.append(H("agent", TMO + "c06_step_rto%d_rc%d_i%d" % (rto, rc, i), tier=tier, timeout=2400 if rc == 10 else 600, mem_gb=6, covers=(2 if i == rc else 3), stubs=[CDS],
+                  bounds="inductive step: RTO=%d ms, Rc=%d, Rm symbolic 1..32, arbitrary pre-state with slot index %d (latest/last_rto symbolic, latest+last_rto = D_%d), one call at any later instant within 700 s" % (rto, rc, i, i),
+                  funcs=["RtoManager::next_rto", "RtoCalculator::next_rto"],
+                  sample="pre: latest=t0+1.2s,last_rto=0.3s (D_2=1.5s); call at t0+4.0s -> Some(3.5s... D_4=7.5s-4.0s)"))
+prop("C06", _c06, outside="RTO values other than 1/500/3000 ms (the schedule is linear in RTO), Rc > 10, client-level observation of the schedule (see C05/C11 glue harnesses)",
+     assumptions=["timer calls are made at non-decreasing instants (monotonic clock)"])
+DESCR["C06"] = {
+    "level": "Bounded model checking of the real RtoManager/RtoCalculator: base case (first call) plus one inductive step from an arbitrary state satisfying the schedule invariant, with the call instant, the previous call instant and Rm symbolic, against a closed-form RFC 8489 schedule; histories of any length follow by induction for the instantiated (RTO, Rc).",
+    "note": "Trusted: Kani/CBMC; Instant built by transmute of (sec,nsec); Instant subtraction replaced by a non-recursive stub computing the same function; RTO and Rc concretised per instance (listed in evidence).",
+}
+
+LIBH = "verif_lib::"
+_c16 = []
+for (name, tier, to, mem) in (("c16_buf28_s26_l4_cut1", "quick", 900, 10), ("c16_buf24_s26_l4_cut1", "quick", 900, 10), ("c16_buf22_s26_l4_cut1", "quick", 900, 10),
+                   ("c16_buf20_s24_l4_cut1", "quick", 900, 10), ("c16_buf24_s24_l4_cut1_anyhdr", "quick", 900, 10),
+                   ("c16_buf24_s26_l4_cut2", "thorough", 2400, 14), ("c16_buf22_s26_l4_cut2", "quick", 1500, 14), ("c16_buf22_s24_l4_cut2_anyhdr", "thorough", 2400, 14),
+                   ("c16_buf22_s24_l4_cut3", "thorough", 3000, 16), ("c16_buf32_s34_l12_cut1", "thorough", 2400, 14), ("c16_buf26_s34_l12_cut2", "thorough", 3000, 16)):
+    m = __import__("re").match(r"c16_buf(\d+)_s(\d+)_l(\d+)_cut(\d)(_anyhdr)?", name)
+    _cov = 1 + (1 if int(m.group(1)) < 20 + int(m.group(3)) else 0) + (1 if m.group(5) else 0)
+    _c16.append(H("agent", LIBH + name, tier=tier, timeout=to, mem_gb=mem, covers=_cov, stubs=[NOFMT],
+                  bounds="buffer %s bytes, stream %s symbolic bytes (one packet with symbolic length field 0..%s followed by bytes of the next packet), %s symbolic cut position(s) incl. empty chunks, header %s" % (m.group(1), m.group(2), m.group(3), m.group(4), "arbitrary (bad cookie/bits included)" if m.group(5) else "valid"),
+                  funcs=["StunPacketDecoder::new", "StunPacketDecoder::decode", "stun_rs::MessageHeader::try_from"],
+                  sample="stream=hdr(len=3)+3+3 bytes, cuts=[7,21], buffer 22 -> More(None), SmallBuffer(consumed 13)"))
+prop("C16", _c16, outside="packets with more than 12 attribute bytes, more than 3 cuts, buffers larger than 32 bytes; several packets are covered only through 'bytes after the packet are not consumed' (each packet needs a fresh decoder by API design)")
+DESCR["C16"] = {
+    "level": "Bounded model checking of the real StunPacketDecoder: for concrete small buffer/stream sizes, all packet contents, all length fields and all positions of 1-3 cuts are decided by one SAT query per size instance against a reference outcome function.",
+    "note": "Trusted: Kani/CBMC; sizes concrete per instance (listed in evidence); error texts stubbed.",
+}
+
+RTT = "rtt::verif_rtt::"
+MULF = "core::time::Duration::mul_f32 -> exact-arithmetic contract for the factors 0.125/0.25/0.75/0.875/4.0, arbitrary result for any other factor (f32 is out of the solver's reach)"
+prop("C15", [
+    H("agent", RTT + "c15_first_sample", timeout=600, mem_gb=6, covers=2, stubs=[MULF], bounds="configured RTO <= 10 s, G <= 100 ms, R <= 1.5 s, all nanosecond values", funcs=["RttCalcuator::new/update/rto"]),
+    H("agent", RTT + "c15_later_sample_step", timeout=900, mem_gb=8, covers=3, stubs=[MULF], bounds="arbitrary estimator state SRTT, RTTVAR <= 1.5 s, G <= 100 ms, sample R <= 1.5 s", funcs=["RttCalcuator::update"]),
+    H("agent", RTT + "c15_reset_then_first_sample", timeout=900, mem_gb=8, covers=0, stubs=[MULF], bounds="new, one sample, reset, one sample; all values symbolic", funcs=["RttCalcuator::reset/update"]),
+    H("agent", RTT + "c15_two_samples_api", timeout=900, mem_gb=8, covers=0, stubs=[MULF], bounds="new, two samples through the public API; all values symbolic", funcs=["RttCalcuator::update"]),
+], outside="single-precision rounding of Duration::mul_f32 (std) and its accumulation over many samples; the client-side feeding rules (Karn, 600 s staleness) are decided in the agent-slice glue harnesses when present",
+     assumptions=["Duration::mul_f32(x, c) = floor(x*c) for the five RFC constants (within 1e-5 relative + 1 us of std's f32 result, which is the property's tolerance)"])
+DESCR["C15"] = {
+    "level": "Bounded model checking of the real RttCalcuator integer structure (which quantities are combined, in which order, with which constants) for all nanosecond values of state, sample and granularity in range, with std's f32 multiply replaced by its exact contract.",
+    "note": "Trusted: Kani/CBMC; the mul_f32 contract stub; floating-point rounding is outside the claim.",
+}
+
+_c11 = []
+for (nm, n, tier, to) in (("next", 0, "quick", 300), ("next", 1, "quick", 600), ("next", 2, "quick", 900), ("next", 3, "thorough", 1800),
+                          ("check", 1, "quick", 600), ("check", 2, "quick", 900), ("check", 3, "thorough", 1800),
+                          ("remove", 1, "quick", 900), ("remove", 2, "thorough", 1800)):
+    _c11.append(H("agent", TMO + "c11_%s_n%d" % (nm, n), tier=tier, timeout=to, mem_gb=10, covers=None, stubs=[CDS],
+          bounds="queue built by %d add() calls with arbitrary (instant, timeout <= 100 s, id in 0..3), then one %s at an arbitrary instant" % (n, {"next": "next_timeout(t)", "check": "check(t)", "remove": "remove(id)"}[nm]),
+          funcs=["StunMessageTimeout::add/remove/next_timeout/check", "TimeoutItem::cmp"]))
+prop("C11", _c11, outside="more than 3 queued deadlines; the client-side emission of the notification (glue harness) and the composition argument of DESIGN §3 C11",
+     assumptions=["ids are distinguished by their first byte only in the harness (12 equal bytes)"])
+DESCR["C11"] = {
+    "level": "Bounded model checking of the real deadline queue (StunMessageTimeout over std BinaryHeap) for queues of up to 3 arbitrary entries and one arbitrary operation at an arbitrary instant: the entry named is one with the earliest deadline, the remaining time saturates at zero, check() pops exactly the due entries.",
+    "note": "Kernel-level claim: the notification content is what the queue yields; emission by the client (exactly when a request is outstanding) is decided only where the agent-slice glue harness is registered (see evidence). Trusted: Kani/CBMC, Instant by transmute, non-recursive Instant subtraction stub.",
+}
+
+# ---------------------------------------------------------------------------------------------
+# C01 / C02: attribute level (verif_attrs.rs) — one harness per kind / size instance
+# ---------------------------------------------------------------------------------------------
+ATT = "verif_attrs::"
+PRECIS = "strings::opaque_string_prepapre/enforce -> precis_ascii (identity on printable ASCII, Err on empty/control: the documented OpaqueString behaviour on ASCII)"
+QSPLAIN = "QuotedStringParser::validate -> qs_plain (accepts exactly printable ASCII without SP, '\"' and '\\\\': qdtext; harness inputs are drawn from that alphabet)"
+_ATTR_ALL = ['attr_additional_address_family', 'attr_address_error_code', 'attr_alternate_server_v4', 'attr_alternate_server_v6', 'attr_change_request', 'attr_channel_number', 'attr_data_l0', 'attr_data_l1', 'attr_data_l2', 'attr_data_l3', 'attr_data_l5', 'attr_empty_kinds', 'attr_error_code_l0', 'attr_error_code_l1', 'attr_error_code_l3', 'attr_error_code_l6', 'attr_even_port', 'attr_ice_controlled', 'attr_ice_controlling', 'attr_icmp', 'attr_lifetime', 'attr_mapped_address_v4', 'attr_mapped_address_v6', 'attr_mobility_ticket_l1', 'attr_mobility_ticket_l4', 'attr_nonce_l1', 'attr_nonce_l2', 'attr_nonce_l4', 'attr_other_address_v4', 'attr_other_address_v6', 'attr_padding_l2', 'attr_padding_l5', 'attr_password_algorithm_p0', 'attr_password_algorithm_p1', 'attr_password_algorithm_p3', 'attr_password_algorithm_p4', 'attr_password_algorithms_n0', 'attr_password_algorithms_n1_p0', 'attr_password_algorithms_n1_p3', 'attr_password_algorithms_n2_p0_p0', 'attr_password_algorithms_n2_p1_p2', 'attr_password_algorithms_n2_p2_p0', 'attr_password_algorithms_n2_p3_p3', 'attr_priority', 'attr_realm_l1', 'attr_realm_l3', 'attr_realm_l5', 'attr_registry_codes_distinct', 'attr_requested_address_family', 'attr_requested_transport', 'attr_reservation_token', 'attr_response_origin_v4', 'attr_response_origin_v6', 'attr_response_port', 'attr_software_l0', 'attr_software_l1', 'attr_software_l3', 'attr_software_l6', 'attr_software_limit_509', 'attr_software_limit_510', 'attr_unknown_attributes', 'attr_user_hash', 'attr_user_name_l1', 'attr_user_name_l2', 'attr_user_name_l4', 'attr_xor_mapped_address_v4', 'attr_xor_mapped_address_v6', 'attr_xor_peer_address_v4', 'attr_xor_peer_address_v6', 'attr_xor_relayed_address_v4', 'attr_xor_relayed_address_v6']
+_STRK = ("attr_nonce", "attr_realm", "attr_user_name", "attr_software", "attr_padding")
+
+
+def _attr_h(n, tier="quick"):
+    st = [NOFMT] + ([PRECIS, QSPLAIN] if n.startswith(_STRK) else [])
+    return H("stunrs", ATT + n, tier=tier, timeout=900, mem_gb=6, covers=None, stubs=st,
+             bounds="attribute kind/size instance '%s': value fields fully symbolic (strings: printable ASCII of the instance's length; lists/params of the instance's sizes), 44-byte output buffer pre-filled with a symbolic byte, arbitrary transaction id" % n[5:],
+             funcs=["<kind as EncodeAttributeValue>::encode", "<kind as DecodeAttributeValue>::decode", "StunAttributeType::get_type"],
+             sample="e.g. XOR-MAPPED-ADDRESS v6: out[4+j] == ip[j] ^ msg[4+j] for symbolic j, decode(encode(a)) == a")
+
+MSG = "verif_msg::"
+TID = "<TransactionId as Default>::default -> tid_any (rand reaches intrinsics Kani cannot compile; ids are always supplied explicitly in the harness)"
+REG = "registry::get_handler -> registry_from_source (if-chain generated from the register::<X>() lines of the working tree; codes checked pairwise distinct)"
+_MSG_KINDS = ["even_port", "unknown_attributes", "data3", "channel_number", "xor_mapped_v4", "data5"]
+
+
+def _msg_rt(k, tier="quick"):
+    return H("stunrs", MSG + "c01_msg_" + k, tier=tier, timeout=1500, mem_gb=10, covers=None, stubs=[NOFMT, TID, REG],
+             bounds="one-attribute message (%s): method 0..0xFFF, class, transaction id and attribute value symbolic; 48-byte buffer; padding bytes re-written with arbitrary values before decoding" % k,
+             funcs=["MessageEncoder::encode", "MessageDecoder::decode", "RawMessage::decode", "RawAttributesIter::next", "context::ignore_attribute"])
+
+
+def _msg_disc(k, tier="quick"):
+    return H("stunrs", MSG + "c14_msg_" + k, tier=tier, timeout=1500, mem_gb=10, covers=2, stubs=[NOFMT, TID],
+             bounds="one-attribute message (%s): all contents symbolic, output buffer of every length 0..48 (symbolic), pre-filled with a symbolic byte" % k,
+             funcs=["MessageEncoder::encode", "common::check_buffer_boundaries", "common::fill_padding_value", "common::padding"],
+             sample="blen=27 < needed=28 -> Err; blen=28 -> Ok(28), buf[28..] untouched")
+
+
+prop("C01",
+     [_attr_h(n, "quick" if not n.endswith(("_l6", "_l5", "_p4", "_p3_p3", "limit_510")) else "thorough") for n in _ATTR_ALL]
+     + [H("stunrs", MSG + "c01_msg_empty", timeout=900, mem_gb=8, covers=None, stubs=[NOFMT, TID, REG], bounds="header-only message, buffer length 0..48 symbolic",
+          funcs=["MessageEncoder::encode", "MessageDecoder::decode"])]
+     + [_msg_rt(k, "quick" if k in ("even_port", "unknown_attributes", "data3", "channel_number") else "thorough") for k in _MSG_KINDS],
+     outside="strings longer than 6 bytes and non-ASCII strings (PRECIS / quoted-string behaviour stubbed on an ASCII alphabet); byte vectors > 5; lists > 2; messages with more than one attribute at message level (MESSAGE-INTEGRITY / FINGERPRINT tails: see C04/C10); the 509/510-byte limits only as concrete witnesses",
+     assumptions=["AlgorithmId::Unassigned(0|1|2) and Some(&[]) parameters are wire aliases of Reserved/MD5/SHA256 and None and are outside the documented domain"])
+DESCR["C01"] = {
+    "level": "Bounded model checking of the real encode/decode pair of each of the 38 attribute kinds (value fields fully symbolic, sizes instantiated) and of one-attribute messages through the real MessageEncoder/MessageDecoder: within the stated sizes the SAT verdict covers every value, transaction id, method and class.",
+    "note": "Trusted: Kani/CBMC; stubs nofmt, tid_any, registry_from_source, precis_ascii, qs_plain (each listed in evidence with its contract). Multi-attribute messages and long strings are outside the bound.",
+}
+
+prop("C02",
+     [H("stunrs", MSG + "c02_message_type_bits", timeout=300, mem_gb=3, covers=None, stubs=[NOFMT], bounds="all 16384 (method, class) pairs, both directions, arbitrary top two bits",
+        funcs=["MessageType::as_u16", "MessageType::from<u16>"])]
+     + [_attr_h(n, "quick" if not n.endswith(("_l6", "_l5", "_l3", "_l2", "_p4", "_p3_p3", "_p0_p0", "limit_510", "limit_509")) else "thorough") for n in _ATTR_ALL]
+     + [_msg_disc(k, "quick" if k in ("data3", "xor_mapped_v4") else "thorough") for k in _MSG_KINDS],
+     outside="as C01; the reference layouts are written in the harness from the RFC text (RFC 8489 §5/§14, RFC 8656 §18, RFC 5780 §7, RFC 8445 §16.1) and could share a misreading with the implementation; RFC 5769 vectors stay with the existing suite")
+DESCR["C02"] = {
+    "level": "Differential bounded model checking: the bytes written by the real encoders are compared, for every symbolic value, with a reference written in the harness from the RFC field diagrams (type bits for all 16384 pairs, type codes, big-endian fields, XOR-ed addresses with every transaction-id byte, ERROR-CODE split for all 400 codes, nested PASSWORD-ALGORITHMS padding, zero padding); reserved bits and padding set to arbitrary values decode identically.",
+    "note": "Trusted: Kani/CBMC and the harness-side reference; stubs as in C01.",
+}
+
+prop("C14",
+     [_msg_disc(k, "quick" if k in ("even_port", "unknown_attributes", "data3", "channel_number", "xor_mapped_v4") else "thorough") for k in _MSG_KINDS]
+     + [H("stunrs", MSG + "c01_msg_empty", timeout=900, mem_gb=8, covers=None, stubs=[NOFMT, TID, REG], bounds="header-only message, buffer length 0..48 symbolic", funcs=["MessageEncoder::encode"])],
+     outside="messages longer than 48 bytes; the 64 KiB boundary (16-bit length accumulator) is decided by the MIR->SMT engine when registered (see evidence)")
+DESCR["C14"] = {
+    "level": "Bounded model checking of the real MessageEncoder::encode with the output buffer length as a symbolic dimension (0..48) and a symbolic pre-fill: Ok exactly when the buffer is long enough, exact size, bytes beyond it untouched, never a panic.",
+    "note": "Small messages only (one attribute, <= 48 bytes); the 64 KiB half of the property is handled separately (see evidence/DESIGN).",
 }
